@@ -56,6 +56,11 @@ enum WOp {
     QueueRescan { sel: u32, len: u8, prio: u8 },
     SetTxStatus { which: u32, status: u8 },
     PruneQueue { below_back: u8, retain: u8 },
+    /// store_decrypted_tx of a transparent-only transaction paying `n_out` outputs to the wallet's own
+    /// transparent addresses (or to a foreign one), mined at the tip or unmined
+    StoreDecrypted { mined: bool, n_out: u8, to_wallet: bool, salt: u8 },
+    /// store_transactions_to_be_sent of a transparent-only transaction funded by an account
+    StoreSent { acct: u8, n_out: u8, salt: u8 },
 }
 
 fn arb_wop() -> impl Strategy<Value = WOp> {
@@ -72,6 +77,8 @@ fn arb_wop() -> impl Strategy<Value = WOp> {
         2 => (any::<u32>(), 1u8..20, 0u8..5).prop_map(|(sel, len, prio)| WOp::QueueRescan { sel, len, prio }),
         2 => (any::<u32>(), 0u8..3).prop_map(|(which, status)| WOp::SetTxStatus { which, status }),
         1 => (0u8..10, 0u8..3).prop_map(|(below_back, retain)| WOp::PruneQueue { below_back, retain }),
+        3 => (any::<bool>(), 1u8..4, any::<bool>(), any::<u8>()).prop_map(|(mined, n_out, to_wallet, salt)| WOp::StoreDecrypted { mined, n_out, to_wallet, salt }),
+        3 => (0u8..3, 1u8..4, any::<u8>()).prop_map(|(acct, n_out, salt)| WOp::StoreSent { acct, n_out, salt }),
     ]
 }
 
@@ -227,6 +234,45 @@ fn run_op(db: &mut RawDb, op: &WOp, c: &OpCtx) -> Result<String, String> {
             };
             db.set_transaction_status(TxId::from_bytes(t), st).map(|_| "status-set".to_string()).map_err(|e| format!("{e:?}"))
         }
+        WOp::StoreDecrypted { mined, n_out, to_wallet, salt } => {
+            let tx = transparent_tx(c, *n_out, *to_wallet, *salt);
+            let ufvks: std::collections::HashMap<AccountUuid, zcash_keys::keys::UnifiedFullViewingKey> =
+                c.accounts.iter().copied().zip(c.world.accounts.iter().map(|k| k.ufvk.clone())).collect();
+            let mined_height = if *mined && tip > base { Some(BlockHeight::from_u32(tip)) } else { None };
+            let d = zcash_client_backend::decrypt_transaction(&c.world.net, mined_height, Some(BlockHeight::from_u32(tip.max(base + 1))), &tx, &ufvks);
+            db.store_decrypted_tx(d).map(|_| "stored-decrypted".to_string()).map_err(|e| format!("{e:?}"))
+        }
+        WOp::StoreSent { acct, n_out, salt } => {
+            use zcash_client_backend::data_api::{SentTransaction, SentTransactionOutput};
+            use zcash_client_backend::wallet::Recipient;
+            let tx = transparent_tx(c, *n_out, false, *salt);
+            let a = c.accounts[*acct as usize % c.accounts.len()];
+            let addr = foreign_taddr(c);
+            let outs: Vec<SentTransactionOutput<AccountUuid>> = (0..*n_out as usize)
+                .map(|i| {
+                    SentTransactionOutput::from_parts(
+                        i,
+                        Recipient::External {
+                            recipient_address: zcash_keys::address::Address::Transparent(addr).to_zcash_address(&c.world.net),
+                            output_pool: PoolType::Transparent,
+                        },
+                        zcash_protocol::value::Zatoshis::const_from_u64(10_000 + i as u64),
+                        None,
+                    )
+                })
+                .collect();
+            let created = time::OffsetDateTime::from_unix_timestamp(1_740_441_600).unwrap();
+            let st = SentTransaction::new(
+                &tx,
+                created,
+                zcash_client_backend::data_api::wallet::TargetHeight::from(BlockHeight::from_u32(tip.max(base) + 1)),
+                a,
+                &outs,
+                zcash_protocol::value::Zatoshis::const_from_u64(10_000),
+                &[],
+            );
+            db.store_transactions_to_be_sent(&[st]).map(|_| "stored-sent".to_string()).map_err(|e| format!("{e:?}"))
+        }
         WOp::PruneQueue { below_back, retain } => {
             let h = tip.saturating_sub(*below_back as u32).max(base);
             let r = match retain {
@@ -237,6 +283,46 @@ fn run_op(db: &mut RawDb, op: &WOp, c: &OpCtx) -> Result<String, String> {
             db.prune_scan_queue_below(BlockHeight::from_u32(h), r).map(|k| format!("pruned {k}")).map_err(|e| format!("{e:?}"))
         }
     }
+}
+
+fn foreign_taddr(c: &OpCtx) -> zcash_transparent::address::TransparentAddress {
+    use zcash_transparent::keys::IncomingViewingKey;
+    let ks = KeySet::derive(&c.world.net, &[0x5e; 32], 0);
+    ks.ufvk.transparent().expect("transparent key").derive_external_ivk().expect("ivk").default_address().0
+}
+
+/// A transparent-only v5 transaction with one (unknown) input and `n_out` P2PKH outputs.
+fn transparent_tx(c: &OpCtx, n_out: u8, to_wallet: bool, salt: u8) -> zcash_primitives::transaction::Transaction {
+    use zcash_primitives::transaction::{TransactionData, TxVersion};
+    use zcash_transparent::address::Script;
+    use zcash_transparent::bundle::{Authorized, Bundle, OutPoint, TxIn, TxOut};
+    use zcash_transparent::keys::{IncomingViewingKey, NonHardenedChildIndex};
+    let mut prev = [salt; 32];
+    prev[0] = 0x77;
+    let vout = (0..n_out as u32)
+        .map(|i| {
+            let addr = if to_wallet {
+                let k = &c.world.accounts[i as usize % c.world.accounts.len()];
+                k.ufvk.transparent().expect("transparent key").derive_external_ivk().expect("ivk").derive_address(NonHardenedChildIndex::from_index(i % 3).unwrap()).expect("addr")
+            } else {
+                foreign_taddr(c)
+            };
+            TxOut::new(zcash_protocol::value::Zatoshis::const_from_u64(10_000 + i as u64 + salt as u64), addr.script().into())
+        })
+        .collect();
+    let bundle = Bundle { vin: vec![TxIn::from_parts(OutPoint::new(prev, salt as u32), Script::default(), u32::MAX - 1)], vout, authorization: Authorized };
+    TransactionData::<zcash_primitives::transaction::Authorized>::from_parts(
+        TxVersion::V5,
+        zcash_protocol::consensus::BranchId::Nu6,
+        salt as u32,
+        BlockHeight::from_u32(c.chain.tip_height() + 40),
+        Some(bundle),
+        None,
+        None,
+        None,
+    )
+    .freeze()
+    .expect("freeze")
 }
 
 #[derive(Clone, Default)]
@@ -422,6 +508,8 @@ fn op_kind(op: &WOp) -> &'static str {
         WOp::QueueRescan { .. } => "op:queue_rescans",
         WOp::SetTxStatus { .. } => "op:set_transaction_status",
         WOp::PruneQueue { .. } => "op:prune_scan_queue_below",
+        WOp::StoreDecrypted { .. } => "op:store_decrypted_tx",
+        WOp::StoreSent { .. } => "op:store_transactions_to_be_sent",
     }
 }
 
@@ -787,7 +875,7 @@ fn main() {
     let ctx = Ctx::from_args("C02", "fault_enumeration");
     ctx.set_rule(
         "proptest (state, operation) pairs: state = generated wallet history on a file-backed wallet (+ unscanned blocks, optional existing lock); operation = one of \
-         put_blocks (scan_cached_blocks of 1..40 blocks), update_chain_tip, truncate_to_height, create_account, import_account_ufvk, delete_account, lock_outputs, unlock_output, \
+         put_blocks (scan_cached_blocks of 1..40 blocks), store_decrypted_tx and store_transactions_to_be_sent (transparent-only transactions), update_chain_tip, truncate_to_height, create_account, import_account_ufvk, delete_account, lock_outputs, unlock_output, \
          clear_locked_outputs, queue_rescans, set_transaction_status, prune_scan_queue_below. Per pair: reference run (VM steps S, commits C), enumerated interrupt positions \
          (all if S <= 48, else first/last 6 + 26 evenly spaced + 12 generated; thorough: 400 / 300), vetoed commit, crash copy at the commit hook, second-connection snapshot \
          before every 4th position, retry after every failure. reader-snapshot: get_wallet_summary on one WAL connection while the write commits on another at sampled reader \
